@@ -114,9 +114,19 @@ impl SrcStats {
         Ok(())
     }
     /// number of block loads since the last reset: reads that start at the file offset of a block
-    /// (its length prefix). Extra seeks that read nothing are not loads.
+    /// (its length prefix). Extra seeks that read nothing are not loads, and reading the same block
+    /// again right away (prefix first, then the whole frame from its start) is still one load: how
+    /// many read calls load one block is the implementation's choice.
     pub fn block_loads(&self, block_offsets: &std::collections::HashSet<u64>) -> u64 {
-        self.read_starts.borrow().iter().filter(|p| block_offsets.contains(p)).count() as u64
+        let mut n = 0u64;
+        let mut last: Option<u64> = None;
+        for p in self.read_starts.borrow().iter().filter(|p| block_offsets.contains(p)) {
+            if last != Some(*p) {
+                n += 1;
+            }
+            last = Some(*p);
+        }
+        n
     }
 }
 
